@@ -155,7 +155,9 @@ func getTLSWorld(t *testing.T, rc *RunCtx) *tlsWorld {
 var tlsCredKinds = []string{"plaintext", "tls-no-client-cert", "self-signed-permitted-name", "other-authority-permitted-name", "host-trust-store-authority-permitted-name",
 	"intermediate-of-configured-authority", "valid-unpermitted-client", "valid-client-test01", "valid-client-test02", "valid-peer-signer-test02",
 	"valid-client-test02-followed-by-forged-client-test01", "valid-unpermitted-client-followed-by-forged-client-test01",
-	"self-signed-permitted-name-followed-by-genuine-client-certificate"}
+	"self-signed-permitted-name-followed-by-genuine-client-certificate",
+	"self-made-authority-flagged-permitted-name", "self-made-authority-flagged-permitted-name-followed-by-genuine-client-certificate",
+	"self-made-authority-flagged-permitted-name-followed-by-configured-authority-certificate"}
 
 func (w *tlsWorld) dial(srv *tlsServer, cred string) (*grpc.ClientConn, error) {
 	pool := x509.NewCertPool()
@@ -198,6 +200,19 @@ func (w *tlsWorld) dial(srv *tlsServer, cred string) (*grpc.ClientConn, error) {
 		forged := mkLeaf("client-test01", nil, nil, false)
 		genuine := pair(resources.ClientTest02Crt, resources.ClientTest02Key)
 		forged.Certificate = append(forged.Certificate, genuine.Certificate[0])
+		cfg.Certificates = []tls.Certificate{forged}
+	case "self-made-authority-flagged-permitted-name":
+		cfg.Certificates = []tls.Certificate{mkLeaf("client-test01", nil, nil, true)}
+	case "self-made-authority-flagged-permitted-name-followed-by-genuine-client-certificate", "self-made-authority-flagged-permitted-name-followed-by-configured-authority-certificate":
+		// The caller proves possession of a self-made key whose certificate claims to be an authority; a genuine
+		// PUBLIC certificate rides along behind it.
+		forged := mkLeaf("client-test01", nil, nil, true)
+		if cred == "self-made-authority-flagged-permitted-name-followed-by-genuine-client-certificate" {
+			genuine := pair(resources.ClientTest02Crt, resources.ClientTest02Key)
+			forged.Certificate = append(forged.Certificate, genuine.Certificate[0])
+		} else if blk, _ := pem.Decode(resources.CACrt); blk != nil {
+			forged.Certificate = append(forged.Certificate, blk.Bytes)
+		}
 		cfg.Certificates = []tls.Certificate{forged}
 	case "valid-peer-signer-test03":
 		cfg.Certificates = []tls.Certificate{pair(resources.SignerTest03Crt, resources.SignerTest03Key)}
